@@ -84,6 +84,7 @@ WellFormed(o) ==
     [] o.kind = "constraint" -> ConstraintOK(o)
     [] o.kind = "indicator" -> active /\ o.name \notin reg["indicator"]
     [] o.kind = "buffer" -> active /\ o.name \notin reg["buffer"]
+    [] o.kind = "objective" -> active /\ o.target \in reg["indicator"]
     [] o.kind = "problem" -> TRUE
     [] o.kind = "require" -> active
 
@@ -104,6 +105,7 @@ Apply(o) ==
          /\ reg' = [reg EXCEPT !["cumulative"] = @ \cup {o.name},
                                !["worker"] = @ \cup { o.name \o "_CumulativeWorker_" \o ToString(i) : i \in 1..o.size }]
          /\ UNCHANGED <<active, optTask, optCon, assigned, nAssigned>>
+    [] o.kind = "objective" -> UNCHANGED <<active, reg, optTask, optCon, assigned, nAssigned>>
     [] o.kind = "require" ->
          /\ assigned' = assigned \cup {o.resource}
          /\ nAssigned' = IF o.resource \in DOMAIN nAssigned THEN [nAssigned EXCEPT ![o.resource] = @ + 1]
@@ -171,12 +173,16 @@ ConstraintProbes ==
                   "ResourcePeriodicallyInterrupted", "ResourceNonDelay", "ResourceTasksDistance"},
            r \in {"W1", "W2", "W3", "CW", "CW2"}, op \in BOOLEAN }
 OtherProbes == { [kind |-> k, name |-> n] : k \in {"indicator", "buffer"}, n \in {"New", "I1", "B1", "T1"} }
+\* an objective over a declared indicator, with or without an explicit weight (weight2 = -1: none given; 0 is legal)
+ObjectiveProbes == { [kind |-> "objective", cls |-> c, name |-> "New", target |-> "I1", weight |-> w] :
+                       c \in {"ObjectiveMinimizeIndicator", "ObjectiveMaximizeIndicator"}, w \in {-1, 0, 1, 3} }
 
 Probes == ReducedTaskProbes \cup WorkerProbes \cup CumulativeProbes \cup SelectProbes \cup ConstraintProbes \cup OtherProbes
+            \cup ObjectiveProbes
 \* before any problem exists only the bare creation of each kind of element is probed
 BareProbes == { o \in Probes : o.name = "New" /\ (o.kind = "task" => (o.duration = 1 /\ o.work_amount = 0 /\ o.priority = 1 /\ o.min_duration = 0 /\ ~o.optional))
                                /\ (o.kind = "cumulative" => o.size = 2 /\ o.cost2 = 0 /\ o.productivity = 1) /\ (o.kind = "select" => FALSE)
-                               /\ (o.kind = "constraint" => FALSE) }
+                               /\ (o.kind = "constraint" => FALSE) /\ (o.kind = "objective" => FALSE) }
 
 ---------------------------------------------------------------------------
 InitProbe ==
